@@ -1,0 +1,16 @@
+//go:build verif
+
+// Contracts for package storage, checked by /verif/govc (comment-only; not part of any normal build).
+
+package storage
+
+//@ func (*engine).initSQLDatabase
+//@   prop C20
+//@   ensures [strict-needs-explicit-db] strictmode && len(old(e.config.SQL.ConnectionString)) == 0 ==> !isNilIface(result)
+//@   call sqliteConnectionString #1 requires !strictmode
+//@   cover call sqliteConnectionString #1
+
+// Interface method (no body to verify): assumed to be a getter without effect on caller-visible memory.
+//@ func (Engine).GetSQLDatabase
+//@   trusted
+//@   benign
